@@ -108,6 +108,8 @@ def gen_config(r, allow_faults=True, fixed_step=False, allow_mass=False):
     dt = float(2.0 ** round(np.log2(dt))) if fixed_step else dt
     nblocks = r.choice([1, 1, 2, 3])
     restol = 10 ** r.uniform(-12, -5)
+    if r.random() < 0.12:
+        restol = 10 ** r.uniform(-5, -1.5)  # loose: reached by the predictor alone or after one iteration
     maxiter = r.choice([50, 50, 30, 8, 3])
     sw_params['num_nodes'] = nodes if nlevels > 1 else nodes[0]
     if quad in ('GAUSS', 'RADAU-LEFT'):
